@@ -65,6 +65,13 @@ def run(tier, seed, replay):
                  "cuts_panicked_on_open": s["panics"], "overwrite_cuts": s.get("overwrite_cuts", 0),
                  "abstract_model_disagreements": len(v.tagged.get("MODEL_DISAGREES", [])),
                  "design_unsafe_op_orders": len(v.tagged.get("DESIGN_UNSAFE", []))}
+    # the commit-order model of Crash.tla is a description of the design, not the property: where it mispredicts an outcome
+    # or finds the recorded operation order unsafe this is reported, never an alarm (CutSafe decides)
+    nd, nu = len(v.tagged.get("MODEL_DISAGREES", [])), len(v.tagged.get("DESIGN_UNSAFE", []))
+    if nd:
+        run.observation("crash_model_disagrees", {"count": nd, "first": str(v.tagged["MODEL_DISAGREES"][0])[:300]})
+    if nu:
+        run.observation("operation_order_unsafe_by_design", {"count": nu, "first": str(v.tagged["DESIGN_UNSAFE"][0])[:300]})
     run.assumptions = ["unwritten regions read as zeros / lie beyond the end of file; writes of one operation land as a prefix",
                        "a panic while opening counts as 'does not open' here (panic freedom is C19)"]
     return run.finish()
